@@ -2,78 +2,7 @@
 #include "../pipe.h"
 #include "../spawn.h"
 
-// production constants (guard off, 16 MiB chunks, 4 real threads): the CLI binary encrypts and decrypts
-// files of k*16 MiB + d bytes; the reference decrypts what it wrote
-static Verdict run_prod(const Case &c)
-{
-  Verdict v;
-  const size_t CH = 1u << 24;
-  long k = c.geti("k"), d = c.geti("d");
-  int cm = (int)c.geti("cmode"), hm = (int)c.geti("hmode");
-  size_t len = (size_t)((long)k * (long)CH + d);
-  const char *b1 = getenv("WENCRY_CLI");
-  if (!b1)
-  {
-    Verdict f = Verdict::fail("WENCRY_CLI not set");
-    f.infra = true;
-    return f;
-  }
-  const char *sroot = getenv("VERIF_SCRATCH");
-  std::string root = sroot ? sroot : "/verif/.scratch";
-  mkdir(root.c_str(), 0755);
-  static uint64_t seq = 0;
-  std::string dir = root + "/c01-" + std::to_string(getpid()) + "-" + std::to_string(seq++);
-  mkdir(dir.c_str(), 0755);
-  struct Cleaner
-  {
-    std::string d;
-    ~Cleaner() { rm_rf(d); }
-  } cleaner{dir};
-  bytes P = expand((uint64_t)(k * 1000 + d + 77), len, 0);
-  if (len)
-    P[len - 1] = (uint8_t)c.geti("lastbyte", P[len - 1]); // the last byte doubles as a would-be pad length
-  bytes key = expand(4242 + k, 16, 0);
-  write_file(dir + "/in.bin", std::string(P.begin(), P.end()));
-  std::string ks = ref::b64_encode(key.data(), 16);
-  v.nontrivial = true;
-  v.classes.push_back("production_16MiB_chunks");
-  v.classes.push_back("chunks=" + std::to_string((len / 16 + 1) * 16 / CH + (((len / 16 + 1) * 16) % CH ? 1 : 0)));
-  auto bad = [&](const std::string &m) {
-    Verdict f = Verdict::fail("production build, |P| = " + std::to_string(k) + "*16MiB" + (d >= 0 ? "+" : "") + std::to_string(d) + ", cmode " + std::to_string(cm) + ", hmode " + std::to_string(hm) + ": " + m);
-    f.nontrivial = true;
-    f.classes = v.classes;
-    return f;
-  };
-  RunRes r1 = spawn(b1, {"-e", "-i", "in.bin", "-o", "out.wenc", "-k", ks, "--cmode", std::to_string(cm), "--hmode", std::to_string(hm), "-n"}, dir);
-  if (r1.timed_out)
-    return v;
-  if (r1.signaled || r1.code != 0)
-    return bad("encryption " + (r1.signaled ? "killed by signal " + std::to_string(r1.sig) : "exit status " + std::to_string(r1.code)));
-  RunRes r2 = spawn(b1, {"-d", "-i", "out.wenc", "-o", "back.bin", "-k", ks, "-n"}, dir);
-  if (r2.timed_out)
-    return v;
-  if (r2.signaled || r2.code != 0)
-    return bad("decryption of the file just written " + (r2.signaled ? "killed by signal " + std::to_string(r2.sig) : "exit status " + std::to_string(r2.code)));
-  std::string back = read_file(dir + "/back.bin");
-  if (back.size() != P.size())
-    return bad("decrypted length " + std::to_string(back.size()) + " != " + std::to_string(P.size()));
-  if (memcmp(back.data(), P.data(), P.size()) != 0)
-    return bad("decrypted bytes differ from the plaintext");
-  back.clear();
-  back.shrink_to_fit();
-  std::string of = read_file(dir + "/out.wenc");
-  bytes ob(of.begin(), of.end());
-  of.clear();
-  of.shrink_to_fit();
-  size_t want_len = 48 + 20 * 4 + 16 * (len / 16 + 1);
-  if (ob.size() != want_len)
-    return bad("file length " + std::to_string(ob.size()) + " != 48+20T+16(floor(n/16)+1) = " + std::to_string(want_len));
-  ref::Parsed pr = ref::parse_file(ob, key, 4, CH);
-  if (pr.status != 0 || pr.plain != P)
-    return bad("the reference (independent format specification, T=4, 16 MiB chunks dealt round-robin) does not decrypt the written file to the plaintext: status " + std::to_string(pr.status));
-  v.distinct = fnv64("prod" + std::to_string(k) + "/" + std::to_string(d) + "/" + std::to_string(cm) + "/" + std::to_string(hm));
-  return v;
-}
+#include "../prodrun.h"
 
 static Verdict run_c01(const Case &c)
 {
@@ -105,15 +34,41 @@ static Verdict run_c01(const Case &c)
     id.seti("T", e.T);
     id.seti("cm", e.cmode);
     id.seti("hm", e.hmode);
+    id.seti("ar", c.geti("around") * 16 + c.geti("arshare"));
     id.set("h", std::to_string(fnv64(hex(e.P) + hex(e.key) + hex(e.seed))));
     v.distinct = fnv64(id.text());
   }
+  // other operations of the same process around the two halves of the round trip: one with a RELATED key (sharing
+  // the first `arshare` bytes) just before the encryption, one with an unrelated key between encryption and
+  // decryption. Whatever the library remembers about an earlier key must not leak into this round trip.
+  long around = c.geti("around"), arshare = c.geti("arshare", 8);
+  auto side_op = [&](bool related) {
+    EncCase o = e;
+    o.P = expand(0xa0a0, 40, 0);
+    o.key = e.key;
+    if (related)
+      for (size_t i = (size_t)arshare; i < 16; i++)
+        o.key[i] ^= (uint8_t)(0x11 + 3 * i);
+    else
+      for (size_t i = 0; i < 16; i++)
+        o.key[i] = (uint8_t)(o.key[i] * 7 + 0x3d + i);
+    o.refill = 0;
+    wapi::OpOut x = wapi::encrypt(o.P, o.key, bytes{'s', 'i', 'd', 'e'}, o.cmode, o.hmode, pcfg(o, wapi::SchedSpec()));
+    if (x.ret && !related)
+      wapi::decrypt(x.out, o.key, pcfg(o, wapi::SchedSpec()));
+  };
+  if (around)
+    v.classes.push_back("other_operations_around_the_round_trip");
   ChildResult r = run_in_child([&]() -> bytes {
     Ser s;
+    if (around & 1)
+      side_op(true);
     wapi::OpOut enc = wapi::encrypt(e.P, e.key, e.seed, e.cmode, e.hmode, pcfg(e, e.s1));
     s.blob(enc.ser());
     if (enc.ret)
     {
+      if (around & 2)
+        side_op(false);
       wapi::OpOut dec = wapi::decrypt(enc.out, e.key, pcfg(e, e.s2));
       s.blob(dec.ser());
     }
@@ -172,6 +127,11 @@ static Case gen_c01()
   GenOpts o;
   o.max_len = 12288;
   gen_enc(c, o);
+  if (g::coin(12))
+  {
+    c.seti("around", g::range(1, 4));
+    c.seti("arshare", g::oneof<long>({1, 4, 7, 8, 9, 12, 15}));
+  }
   return c;
 }
 
